@@ -74,6 +74,9 @@ Definition set_cell m k v := {| fstate := fstate m; ndata := ndata m; nnext := n
 Definition wake (m : kmem) (f : nat) : kmem :=
   if blocked m f then set_blocked m f false else set_pend m f (S (pend m f)).
 
+(* a 64-bit word as rt_canon prints it: small magnitudes as they are, anything else -777777 *)
+Definition pc64 (v : Z) : Z := if (- 2 ^ 40 <? v) && (v <? 2 ^ 40) then v else -777777.
+
 (* 32-bit int as the runtime prints it *)
 Definition sx32 (v : Z) : Z := let w := v mod 2 ^ 32 in if w <? 2 ^ 31 then w else w - 2 ^ 32.
 
@@ -93,6 +96,8 @@ Section Kernel.
   | WLoadW (q : nat) (mo : Z)
   | WCasW (q : nat) (e n : Z) (mo : Z)  (* returns 1 / 0; on failure the observed value is in the trace only *)
   | WStoreW (q : nat) (v : Z) (mo : Z)  (* atomic store on word q *)
+  | WReadW (q : nat)                    (* plain read of word q, returns it *)
+  | WWriteW (q : nat) (v : Z)           (* plain write of word q *)
   | CXchgC (c : nat) (v : Z) (mo : Z)   (* atomic exchange on a client cell, returns OLD value *)
   | CCasC (c : nat) (e n : Z) (mo : Z)  (* strong CAS on a client cell, returns 1 / 0 *)
   | CStoreC (c : nat) (v : Z) (mo : Z)  (* atomic store on a client cell *)
@@ -219,23 +224,28 @@ Section Kernel.
           let '(m1, e1, s1) := ret m t (cell m c) r in (m1, ev t (l_cell c) 9 (cell m c) ++ e1, s1)
       | WFAdd q d mo =>
           let o := word m q in
-          let '(m1, e1, s1) := ret (set_word m q (o + d)) t o r in (m1, ev t (l_word q) (50 + mo) o ++ e1, s1)
+          let '(m1, e1, s1) := ret (set_word m q (o + d)) t o r in (m1, ev t (l_word q) (50 + mo) (pc64 o) ++ e1, s1)
       | WFSub q d mo =>
           let o := word m q in
-          let '(m1, e1, s1) := ret (set_word m q (o - d)) t o r in (m1, ev t (l_word q) (60 + mo) o ++ e1, s1)
+          let '(m1, e1, s1) := ret (set_word m q (o - d)) t o r in (m1, ev t (l_word q) (60 + mo) (pc64 o) ++ e1, s1)
       | WXchgW q v mo =>
           let o := word m q in
-          let '(m1, e1, s1) := ret (set_word m q v) t o r in (m1, ev t (l_word q) (40 + mo) o ++ e1, s1)
+          let '(m1, e1, s1) := ret (set_word m q v) t o r in (m1, ev t (l_word q) (40 + mo) (pc64 o) ++ e1, s1)
       | WLoadW q mo =>
           let o := word m q in
-          let '(m1, e1, s1) := ret m t o r in (m1, ev t (l_word q) (20 + mo) o ++ e1, s1)
+          let '(m1, e1, s1) := ret m t o r in (m1, ev t (l_word q) (20 + mo) (pc64 o) ++ e1, s1)
       | WCasW q e n mo =>
           let o := word m q in
           if o =? e
-          then let '(m1, e1, s1) := ret (set_word m q n) t 1 r in (m1, ev t (l_word q) (70 + mo) n ++ e1, s1)
-          else let '(m1, e1, s1) := ret m t 0 r in (m1, ev t (l_word q) (80 + mo) o ++ e1, s1)
+          then let '(m1, e1, s1) := ret (set_word m q n) t 1 r in (m1, ev t (l_word q) (70 + mo) (pc64 n) ++ e1, s1)
+          else let '(m1, e1, s1) := ret m t 0 r in (m1, ev t (l_word q) (80 + mo) (pc64 o) ++ e1, s1)
+      | WReadW q =>
+          let o := word m q in
+          let '(m1, e1, s1) := ret m t o r in (m1, ev t (l_word q) 9 (pc64 o) ++ e1, s1)
+      | WWriteW q v =>
+          let '(m1, e1, s1) := ret (set_word m q v) t 0 r in (m1, ev t (l_word q) 19 (pc64 v) ++ e1, s1)
       | WStoreW q v mo =>
-          let '(m1, e1, s1) := ret (set_word m q v) t 0 r in (m1, ev t (l_word q) (30 + mo) v ++ e1, s1)
+          let '(m1, e1, s1) := ret (set_word m q v) t 0 r in (m1, ev t (l_word q) (30 + mo) (pc64 v) ++ e1, s1)
       | CXchgC c v mo =>
           let o := cell m c in
           let '(m1, e1, s1) := ret (set_cell m c v) t o r in (m1, ev t (l_cell c) (40 + mo) o ++ e1, s1)
@@ -359,7 +369,7 @@ Section Kernel.
 End Kernel.
 
 Arguments FC {C}. Arguments Start {C}. Arguments CWrite {C}. Arguments CRead {C}.
-Arguments WStoreW {C}. Arguments CXchgC {C}. Arguments CCasC {C}. Arguments CStoreC {C}. Arguments CLoadC {C}.
+Arguments WStoreW {C}. Arguments WReadW {C}. Arguments WWriteW {C}. Arguments CXchgC {C}. Arguments CCasC {C}. Arguments CStoreC {C}. Arguments CLoadC {C}.
 Arguments CFAddC {C}. Arguments FStWrite {C}. Arguments FStRead {C}. Arguments QWait {C}. Arguments QReady {C}.
 Arguments WFAdd {C}. Arguments WFSub {C}. Arguments WXchgW {C}. Arguments WLoadW {C}. Arguments WCasW {C}.
 Arguments YRead {C}. Arguments YNext {C}. Arguments SwRead {C}. Arguments SwReady {C}. Arguments SwDone {C}.
